@@ -675,6 +675,9 @@ func (se *SessionExecutor) handleKeepSessionPing() (err error) {
 			}
 			ksConn.Recycle()
 		}
+		// the connections went back to their pools: forget them, or they are
+		// used and recycled again later (next statement, session close)
+		se.ksConns = make(map[string]backend.PooledConnect)
 		return mysql.ErrBadConn
 	}
 
